@@ -36,6 +36,7 @@ def c09(rec, tier):
 def c20(rec, tier):
     F = D(rec)
     f6_kinds.run(rec, F)
+    f4_gc.relocation_layout(rec, F)
     f4_gc.sweep_siblings(rec, F)
     f4_gc.alloc_rooting(rec, F)
     f4_gc.gc_phase_order(rec, F)
